@@ -140,6 +140,33 @@ pub fn run(cx: &mut Ctx, args: &Args, rng: &mut Rng) -> i32 {
                 }
             }
             cx.end();
+            if name == "Idea" {
+                // IDEA's decryption subkeys are the inverses mod 2^16 + 1 of 16-bit words of the key schedule: a function on a
+                // 2^16 domain that a uniformly random key samples at 18 points.  Sweep a seeded contiguous slice of that domain
+                // (the whole of it for sweep16 >= 65536) through key word 0 (= Z1 of round 1).
+                let n = (args.num("sweep16", 0) as usize).min(65536);
+                let start = r.below(65536);
+                let b = r.bytes(bs);
+                for j in 0..n {
+                    if j % 1024 == 0 {
+                        if j > 0 {
+                            cx.end();
+                        }
+                        cx.reset(name);
+                    }
+                    let w = ((start + j) & 0xFFFF) as u16;
+                    let mut key = vec![0u8; len];
+                    key[..2].copy_from_slice(&w.to_be_bytes());
+                    let Some((id, inst)) = cx.construct(ti, "slice", &key, "sweep16") else { continue };
+                    if let Some(c) = cx.one(id, inst.as_ref(), Dir::Enc, Shape::Inplace, &b) {
+                        cx.one(id, inst.as_ref(), Dir::Dec, Shape::B2b, &c);
+                    }
+                    cx.drop_inst(id, inst);
+                }
+                if n > 0 {
+                    cx.end();
+                }
+            }
         }
     }
     0
